@@ -403,6 +403,10 @@ func validateSecurityRequirement(ctx context.Context, input *RequestValidationIn
 		names = append(names, name)
 	}
 	sort.Strings(names)
+	if len(names) == 0 {
+		// an empty requirement needs no authentication (and must not consume the request body)
+		return nil
+	}
 
 	// Get authentication function
 	options := input.Options
